@@ -66,7 +66,9 @@ func parseRoute(node *treeNode, path string, method string, info *RouteInfo) (pa
 		return 0, errors.New("invalid method " + method + " for routePath: " + path)
 	}
 
-	var paramNameList []string
+	// split and validate the whole routePath before touching the tree:
+	// a rejected route must not leave nodes behind which shadow other routes.
+	var keyList, paramNameList []string
 	var length, left, right int = len(path), 0, 0
 	for ; right <= length; right++ {
 		if right < length && path[right] != '/' {
@@ -76,7 +78,7 @@ func parseRoute(node *treeNode, path string, method string, info *RouteInfo) (pa
 			// skip empty fragment
 		} else if path[left+1:right] == "*" {
 			paramNameList = append(paramNameList, routeParamAny)
-			node = node.nextNodeOrNew(routeParamAny)
+			keyList = append(keyList, routeParamAny)
 			break
 		} else if path[left+1] == ':' {
 			paramName := path[left+2 : right]
@@ -84,15 +86,28 @@ func parseRoute(node *treeNode, path string, method string, info *RouteInfo) (pa
 				return 0, errors.New("invalid fragment :" + paramName + " in routePath: " + path)
 			}
 			paramNameList = append(paramNameList, paramName)
-			node = node.nextNodeOrNew(routeParam)
+			keyList = append(keyList, routeParam)
 		} else {
-			node = node.nextNodeOrNew(path[left+1 : right])
+			keyList = append(keyList, path[left+1:right])
 		}
 		left = right
 	}
 
-	if _, ok = node.next[methodTag]; ok {
-		return 0, errors.New("duplicate method " + method + " for routePath: " + path)
+	exist := node
+	for _, key := range keyList {
+		// It's ok to retrieve an element from nil map.
+		if exist = exist.next[key]; exist == nil {
+			break
+		}
+	}
+	if exist != nil {
+		if _, ok = exist.next[methodTag]; ok {
+			return 0, errors.New("duplicate method " + method + " for routePath: " + path)
+		}
+	}
+
+	for _, key := range keyList {
+		node = node.nextNodeOrNew(key)
 	}
 	node = node.nextNodeOrNew(methodTag)
 	node.info = info
